@@ -80,6 +80,9 @@ type weird struct{ r, g, b, a uint32 }
 func (w weird) RGBA() (uint32, uint32, uint32, uint32) { return w.r, w.g, w.b, w.a }
 
 func c19Color(model, i, n int) color.Color {
+	if model == 0 && n%5 == 2 {
+		return color.RGBA{0x20, 0x90, 0x40, 0xc0} // every stop of one colour
+	}
 	a := uint8(255 - (i*7)%200)
 	v := uint8((i * 37) % 256)
 	switch model {
@@ -483,67 +486,118 @@ func c19Check(w *mc.W, cs *c19Case) {
 				paint, sp = &ras.Calls[i].Paint, ras.Calls[i].SP
 			}
 		}
-		if paint == nil || paint.Kind != 2 {
-			fail("paint:not-a-gradient", fmt.Sprintf("probe path filled with CREG[CSEL] reached the rasteriser as %v", paint))
-			return
-		}
-		ok := paint.Shape == shape && paint.Spread == cs.Spread && len(paint.Colors) == len(stops)
-		if ok {
-			for i, s := range stops {
-				want := color.RGBAModel.Convert(s.Color).(color.RGBA)
-				if paint.Colors[i] != want || (cs.Dest == 0 && paint.Offsets[i] != float64(s.Offset)) || (cs.Dest == 1 && cmpNReg(s.Offset, float32(paint.Offsets[i])) != "") {
-					ok = false
-				}
-			}
-		}
-		if !ok {
-			fail("paint:stops", fmt.Sprintf("paint has shape %d spread %d colours %v offsets %v; requested shape %d spread %d stops %v", paint.Shape, paint.Spread, paint.Colors, paint.Offsets, shape, cs.Spread, stops))
-			return
-		}
-		// judged in rectangle-relative pixel space, whatever source point Draw was given
-		paint.M[2] += paint.M[0]*float64(sp.X) + paint.M[1]*float64(sp.Y)
-		paint.M[5] += paint.M[3]*float64(sp.X) + paint.M[4]*float64(sp.Y)
-		sx := float64(c19Rect.Dx()) / float64(c19VB.MaxX-c19VB.MinX)
-		sy := float64(c19Rect.Dy()) / float64(c19VB.MaxY-c19VB.MinY)
-		// Transform() is pixel -> gradient: pull back through the pixel map
-		if !judge("the paint's Transform pulled back through the pixel map", paint.M, func(x, y float64) (float64, float64) {
-			return (x - float64(c19VB.MinX)) * sx, (y - float64(c19VB.MinY)) * sy
-		}) {
-			return
-		}
-		// the stops given are the ones rendered: the paint evaluated on a pixel grid (every
-		// stop count 2..58 at one selector state, and every geometry of part B)
-		if cs.CSel == 5 {
-			rst := make([]ref.Stop, len(stops))
-			for i := range rst {
-				rst[i] = ref.Stop{Offset: paint.Offsets[i], Color: paint.Colors[i]}
-			}
-			pm := paint.M
-			for py := 0; py < c19Rect.Dy(); py += 4 {
-				for px := 0; px < c19Rect.Dx(); px += 4 {
-					cx, cy := float64(px)+0.5, float64(py)+0.5
-					o := pm[0]*cx + pm[1]*cy + pm[2]
-					if shape == 1 {
-						o = math.Hypot(o, pm[3]*cx+pm[4]*cy+pm[5])
-					}
-					if math.IsNaN(o) || math.IsInf(o, 0) || ref.NearDiscontinuity(cs.Spread, o, 1e-9) {
-						w.Skip()
-						continue
-					}
-					w.EvalN(1)
-					r, g, b, a := paint.Img.At(px+sp.X, py+sp.Y).RGBA()
-					got := [4]float64{float64(r), float64(g), float64(b), float64(a)}
-					var want [4]float64
-					if so, visible := ref.SpreadOffset(cs.Spread, o); visible {
-						want, _ = ref.GradColor(rst, so)
-					}
-					for k := 0; k < 4; k++ {
-						if math.Abs(got[k]-want[k]) > 1+1e-6 {
-							fail("paint:rendered-colour", fmt.Sprintf("pixel (%d,%d) has offset %g: painted %v, the stops give %v", px, py, o, got, want))
+		if paint != nil && paint.Kind == 1 && cs.Model == 0 && cs.NStops%5 == 2 && paint.FlatOK && paint.Flat8 == (color.RGBA{0x20, 0x90, 0x40, 0xc0}) {
+			// every stop has this colour: a uniform paint is the same picture - unless the spread
+			// is none and some pixel lies outside [0,1], where nothing is to be painted
+			if cs.Spread == 0 {
+				sx := float64(c19Rect.Dx()) / float64(c19VB.MaxX-c19VB.MinX)
+				sy := float64(c19Rect.Dy()) / float64(c19VB.MaxY-c19VB.MinY)
+				for py := 0; py < c19Rect.Dy(); py += 4 {
+					for px := 0; px < c19Rect.Dx(); px += 4 {
+						x, y := (float64(px)+0.5)/sx+float64(c19VB.MinX), (float64(py)+0.5)/sy+float64(c19VB.MinY)
+						o := M[0]*x + M[1]*y + M[2]
+						if shape == 1 {
+							o = math.Hypot(o, M[3]*x+M[4]*y+M[5])
+						}
+						if o < -1e-6 || o > 1+1e-6 {
+							fail("paint:uniform-under-spread-none", fmt.Sprintf("all stops have one colour and the path is painted uniformly, but pixel (%d,%d) has offset %g and spread none paints nothing there", px, py, o))
 							return
 						}
 					}
 				}
+			}
+		} else {
+			if paint == nil || paint.Kind != 2 {
+				fail("paint:not-a-gradient", fmt.Sprintf("probe path filled with CREG[CSEL] reached the rasteriser as %v", paint))
+				return
+			}
+			ok := paint.Shape == shape && paint.Spread == cs.Spread && len(paint.Colors) == len(stops)
+			if ok {
+				for i, s := range stops {
+					want := color.RGBAModel.Convert(s.Color).(color.RGBA)
+					if paint.Colors[i] != want || (cs.Dest == 0 && paint.Offsets[i] != float64(s.Offset)) || (cs.Dest == 1 && cmpNReg(s.Offset, float32(paint.Offsets[i])) != "") {
+						ok = false
+					}
+				}
+			}
+			if !ok {
+				fail("paint:stops", fmt.Sprintf("paint has shape %d spread %d colours %v offsets %v; requested shape %d spread %d stops %v", paint.Shape, paint.Spread, paint.Colors, paint.Offsets, shape, cs.Spread, stops))
+				return
+			}
+			// judged in rectangle-relative pixel space, whatever source point Draw was given
+			paint.M[2] += paint.M[0]*float64(sp.X) + paint.M[1]*float64(sp.Y)
+			paint.M[5] += paint.M[3]*float64(sp.X) + paint.M[4]*float64(sp.Y)
+			sx := float64(c19Rect.Dx()) / float64(c19VB.MaxX-c19VB.MinX)
+			sy := float64(c19Rect.Dy()) / float64(c19VB.MaxY-c19VB.MinY)
+			// Transform() is pixel -> gradient: pull back through the pixel map
+			if !judge("the paint's Transform pulled back through the pixel map", paint.M, func(x, y float64) (float64, float64) {
+				return (x - float64(c19VB.MinX)) * sx, (y - float64(c19VB.MinY)) * sy
+			}) {
+				return
+			}
+			// the stops given are the ones rendered: the paint evaluated on a pixel grid (every
+			// stop count 2..58 at one selector state, and every geometry of part B)
+			if cs.CSel == 5 {
+				rst := make([]ref.Stop, len(stops))
+				for i := range rst {
+					rst[i] = ref.Stop{Offset: paint.Offsets[i], Color: paint.Colors[i]}
+				}
+				pm := paint.M
+				for py := 0; py < c19Rect.Dy(); py += 4 {
+					for px := 0; px < c19Rect.Dx(); px += 4 {
+						cx, cy := float64(px)+0.5, float64(py)+0.5
+						o := pm[0]*cx + pm[1]*cy + pm[2]
+						if shape == 1 {
+							o = math.Hypot(o, pm[3]*cx+pm[4]*cy+pm[5])
+						}
+						if math.IsNaN(o) || math.IsInf(o, 0) || ref.NearDiscontinuity(cs.Spread, o, 1e-9) {
+							w.Skip()
+							continue
+						}
+						w.EvalN(1)
+						r, g, b, a := paint.Img.At(px+sp.X, py+sp.Y).RGBA()
+						got := [4]float64{float64(r), float64(g), float64(b), float64(a)}
+						var want [4]float64
+						if so, visible := ref.SpreadOffset(cs.Spread, o); visible {
+							want, _ = ref.GradColor(rst, so)
+						}
+						for k := 0; k < 4; k++ {
+							if math.Abs(got[k]-want[k]) > 1+1e-6 {
+								fail("paint:rendered-colour", fmt.Sprintf("pixel (%d,%d) has offset %g: painted %v, the stops give %v", px, py, o, got, want))
+								return
+							}
+						}
+					}
+				}
+			}
+			// (b) the raster is configured anew with another rectangle and the probe is painted again,
+			// no register written in between: the paint's transform follows the new pixel scale
+			if cs.Dest == 0 && cs.CSel%2 == 0 {
+				r2 := image.Rect(1, 2, 1+c19Rect.Dy()+9, 2+c19Rect.Dx()+3)
+				z.SetRasterizer(&ras, r2)
+				ras.ResetLog()
+				probe(&z)
+				var p2 *rec.Paint
+				var sp2 image.Point
+				for i := range ras.Calls {
+					if ras.Calls[i].K == rec.RDraw {
+						p2, sp2 = &ras.Calls[i].Paint, ras.Calls[i].SP
+					}
+				}
+				if p2 == nil || p2.Kind != 2 {
+					fail("repaint:not-a-gradient", fmt.Sprintf("after SetRasterizer(%v) the probe path reached the rasteriser as %v", r2, p2))
+					return
+				}
+				p2.M[2] += p2.M[0]*float64(sp2.X) + p2.M[1]*float64(sp2.Y)
+				p2.M[5] += p2.M[3]*float64(sp2.X) + p2.M[4]*float64(sp2.Y)
+				sx2 := float64(r2.Dx()) / float64(c19VB.MaxX-c19VB.MinX)
+				sy2 := float64(r2.Dy()) / float64(c19VB.MaxY-c19VB.MinY)
+				if !judge("the paint's Transform after SetRasterizer with another rectangle, pulled back through the new pixel map", p2.M, func(x, y float64) (float64, float64) {
+					return (x - float64(c19VB.MinX)) * sx2, (y - float64(c19VB.MinY)) * sy2
+				}) {
+					return
+				}
+				z.SetRasterizer(&ras, c19Rect)
 			}
 		}
 	}
